@@ -1293,6 +1293,41 @@ def rule_blocks(out, tier):
     out.check(ok_refill and n_refill > 0, rid, "ReadBlock/refill only when empty", pos_rb, "a new block count is read only when current_block_remaining == 0", "ReadBlock does not refill the block count under `current_block_remaining == 0`")
     out.check(ok_end and sees_zero, rid, "ReadBlock/zero count ends the stream", pos_rb, "a block count of 0 returns false", "a zero block count is not treated as the end of the stream")
     out.check(ok_dec, rid, "ReadBlock/decrement by one", pos_rb, "one item per call", "current_block_remaining is not decremented by exactly one per item read")
+    # The generated callers treat `current_block_remaining == 0` after a batch read as the end of the stream. So every
+    # routine that consumes items of a block must never return with the count at zero unless the zero was READ from the
+    # stream: after the last decrement on a path there is either a refill (ReadInteger into the count) or the path knows
+    # the count is still positive.
+    for fname, fn in sorted(fns.items()):
+        ps = params_of(fn)
+        if not any((q.get("name") == var) for q in ps) or not fname.startswith("Read"):
+            continue
+        if not ((fn.get("type") or {}).get("qualType", "")).startswith("void"):
+            continue  # a routine that reports the end of the stream through its result is judged on that (above)
+        cp2 = CxxPaths(helpers)
+        pths = [q for q in cp2.paths(fn) if q.outcome != "throw"]
+        posf = "%s:%d" % (rel, fn.get("_line", 0))
+        if cp2.overflow or not pths:
+            out.undecided(rid, "%s/paths" % fname, posf, "cannot enumerate the paths of %s" % fname)
+            continue
+        bad = None
+        for q in pths:
+            last_dec = None
+            refilled_after = False
+            for kind, t, nl in q.events:
+                tt = t.replace(" ", "")
+                if kind == "step" and re.match(r"^(--)?%s(--|-=)" % var, tt):
+                    last_dec, refilled_after = nl, False
+                elif kind == "call" and "ReadInteger(stream," + var in q.expand(t).replace(" ", ""):
+                    refilled_after = True
+            if last_dec is None or refilled_after:
+                continue
+            later = CxxPath(q.lits[last_dec:], [], q.outcome, q.env)
+            if not later.knows_positive((var,)):
+                bad = q
+                break
+        out.check(bad is None, rid, "%s/count zero only when read from the stream" % fname, posf, "after the last decrement every path refills the count or knows it is positive",
+                  "%s can return with current_block_remaining decremented to zero without having read the next block header (path: %s): the caller takes the zero for the end-of-stream marker, "
+                  "drops the rest of the stream and the next step reads block data as its own" % (fname, " && ".join(("" if v else "!") + "(" + t + ")" for t, v in (bad.lits if bad else [])) or "-"))
 
 
 def rule_output_order(out, tier):
@@ -1352,8 +1387,80 @@ def rule_output_order(out, tier):
               "%s:%d" % (rel, (fl or {}).get("_line", 0)), "FlushBuffer hands the staging buffer to the stream (%d direct writes elsewhere)" % n, "FlushBuffer does not write to the stream")
 
 
+def rule_fill_loops_end(out, tier):
+    rid = "CB4"
+    out.rule(rid, "coded_stream.h CodedInputStream: every loop that refills the buffer while it still needs bytes calls a refill routine that throws once the underlying "
+                  "stream is exhausted (otherwise a truncated stream makes the loop spin on an empty buffer instead of reporting the end of the stream)", 1)
+    roots, rc, err = dump(out.repo, "coded_stream.h")
+    rel = BIN + "/coded_stream.h"
+    if rc != 0 or not roots:
+        out.undecided(rid, "clang/coded_stream.h", rel, "clang could not parse the header: " + err[-300:])
+        return
+    for r in roots:
+        annotate_lines(r)
+    with open(os.path.join(out.repo, BIN, "coded_stream.h")) as f:
+        _SRC[0] = f.read()
+    cls = find_class(roots, "CodedInputStream")
+    if cls is None:
+        out.undecided(rid, "CodedInputStream", rel, "class not found in the AST")
+        return
+    fns = dict(functions_in(cls))
+
+    def member_calls(n):
+        res = []
+        for x in walk(n):
+            if x.get("kind") in ("CXXMemberCallExpr", "CallExpr"):
+                nm = callee_name(x).split("::")[-1]
+                if nm in fns:
+                    res.append(nm)
+        return res
+
+    memo = {}
+
+    def can_throw(name, depth=0):
+        if name in memo:
+            return memo[name]
+        memo[name] = False
+        fn = fns.get(name)
+        if fn is None or body_of(fn) is None or depth > 4:
+            return False
+        res = any(x.get("kind") == "CXXThrowExpr" for x in walk(body_of(fn)))
+        if not res:
+            res = any(can_throw(c, depth + 1) for c in member_calls(body_of(fn)))
+        memo[name] = res
+        return res
+
+    def refills(name, depth=0):
+        """the member function reads from the underlying stream (directly or through members)"""
+        fn = fns.get(name)
+        if fn is None or body_of(fn) is None or depth > 4:
+            return False
+        for x in walk(body_of(fn)):
+            if x.get("kind") in ("CXXMemberCallExpr", "CallExpr") and callee_name(x).split("::")[-1] in ("read", "readsome") and "stream_" in json.dumps(x)[:4000]:
+                return True
+        return any(refills(c, depth + 1) for c in member_calls(body_of(fn)) if c != name)
+
+    n = 0
+    for name, fn in functions_in(cls):
+        b = body_of(fn)
+        if b is None:
+            continue
+        for x in walk(b):
+            if x.get("kind") not in ("WhileStmt", "ForStmt", "DoStmt"):
+                continue
+            for callee in sorted(set(member_calls(x))):
+                if not refills(callee):
+                    continue
+                n += 1
+                out.check(can_throw(callee), rid, "CodedInputStream.%s/loop calling %s" % (name, callee), "%s:%d" % (rel, x.get("_line", fn.get("_line", 0))),
+                          "%s can throw when the stream is exhausted" % callee,
+                          "%s never throws: at the end of a truncated stream the loop keeps calling it, gets no bytes and never terminates" % callee)
+    if n == 0:
+        out.undecided(rid, "CodedInputStream/refill loops", rel, "no loop calling a refill routine found")
+
+
 RULES = {
-    "C16": [rule_coded_stream_bounds, rule_blocks],
+    "C16": [rule_coded_stream_bounds, rule_blocks, rule_fill_loops_end],
     "C01": [rule_coded_stream_bounds, rule_serializer_twins, rule_output_order],
     "C15": [rule_cxx_header],
     "C04": [rule_cxx_header, rule_output_order],
